@@ -250,6 +250,16 @@ class SyncedList(SyncedCollection, MutableSequence):
         with self._load_and_save, self._suspend_sync:
             self._data.remove(self._from_base(data=value, parent=self))
 
+    def index(self, value, start=0, stop=None):  # noqa: D102
+        # The MutableSequence mixin implements index() with one item access
+        # (and therefore one reload) per element, so a concurrent writer
+        # shifting the elements could make a present value go unnoticed.
+        # Search a single snapshot of the data instead.
+        data = self()
+        if stop is None:
+            return data.index(value, start)
+        return data.index(value, start, stop)
+
     def pop(self, index=-1):  # noqa: D102
         # The MutableSequence mixin implements pop() as a separate read and
         # delete, which is not atomic with respect to concurrent writers.
